@@ -104,17 +104,22 @@ static void hist_cmd(HS* s, char* line)
   else if (!strcmp(c, "ctx")) print_ctx(s);
   else if (!strcmp(c, "scanfill"))
   {
-    size_t plen;
+    // scanfill <unit hex> <count> [<prefix hex>] : the buffer is prefix + count repetitions of the unit
+    size_t plen, prelen = 0;
     uint8_t* pat = h_unhex(tok(&p), &plen);
     size_t cnt = (size_t) strtoull(tok(&p), NULL, 10);
-    uint8_t* b = (uint8_t*) malloc(plen * cnt + 1);
-    for (size_t i = 0; i < cnt; i++) memcpy(b + i * plen, pat, plen);
+    char* pre_s = tok(&p);
+    uint8_t* pre = *pre_s ? h_unhex(pre_s, &prelen) : NULL;
+    uint8_t* b = (uint8_t*) malloc(prelen + plen * cnt + 1);
+    if (pre) memcpy(b, pre, prelen);
+    for (size_t i = 0; i < cnt; i++) memcpy(b + prelen + i * plen, pat, plen);
     s->msg_index = 0;
     fprintf(o, "scan msgs=");
-    int rc = yr_scanner_scan_mem(s->scanner[s->cur], b, plen * cnt);
+    int rc = yr_scanner_scan_mem(s->scanner[s->cur], b, prelen + plen * cnt);
     fprintf(o, " rc=%d\n", rc);
     free(b);
     free(pat);
+    free(pre);
   }
   else if (!strcmp(c, "blocks"))
   {
